@@ -124,29 +124,51 @@ def record_calls(cont, data, requests, label):
         except NotExistent:
             return 'MISSING'
 
+    def raised(exc):
+        # a bulk call that raises is an outcome like any other (the single-key answers decide whether it is a violation)
+        return [{'k': '?', 'w': 'missing', 'v': f'RAISED:{type(exc).__name__}'}]
+
+    def guarded(func, key):
+        try:
+            return func(key)
+        except Exception as exc:  # noqa pylint: disable=broad-except
+            return f'RAISED:{type(exc).__name__}'
+
     for req in requests:
         distinct = list(dict.fromkeys(req))
-        flags = cont.has_objects(list(req))
-        lines.append({'call': 'has', 'label': label, 'req': req, 'skip': True,
-                      'bulk': [{'k': k, 'v': 'PRESENT'} for k in dict.fromkeys(k for k, f in zip(req, flags) if f)],
-                      'single': [{'k': k, 'v': single_has(k)} for k in distinct], 'flags': [bool(f) for f in flags]})
+        try:
+            flags = cont.has_objects(list(req))
+            bulk = [{'k': k, 'v': 'PRESENT'} for k in dict.fromkeys(k for k, f in zip(req, flags) if f)]
+        except Exception as exc:  # noqa pylint: disable=broad-except
+            flags, bulk = [], raised(exc)
+        lines.append({'call': 'has', 'label': label, 'req': req, 'skip': True, 'bulk': bulk,
+                      'single': [{'k': k, 'v': guarded(single_has, k)} for k in distinct], 'flags': [bool(f) for f in flags]})
         for skip in (True, False):
-            metas = list(cont.get_objects_meta(list(req), skip_if_missing=skip))
-            lines.append({'call': 'meta', 'label': label, 'req': req, 'skip': skip,
-                          'bulk': [{'k': k, 'w': m.type.value, 'v': 'MISSING' if m.type.value == 'missing' else
-                                    f'{m.type.value}:{m.size}:{bool(m.pack_compressed)}:{m.pack_length}'} for k, m in metas],
-                          'single': [{'k': k, 'v': single_meta(k)} for k in distinct], 'flags': []})
+            try:
+                metas = list(cont.get_objects_meta(list(req), skip_if_missing=skip))
+                bulk = [{'k': k, 'w': m.type.value, 'v': 'MISSING' if m.type.value == 'missing' else
+                         f'{m.type.value}:{m.size}:{bool(m.pack_compressed)}:{m.pack_length}'} for k, m in metas]
+            except Exception as exc:  # noqa pylint: disable=broad-except
+                bulk = raised(exc)
+            lines.append({'call': 'meta', 'label': label, 'req': req, 'skip': skip, 'bulk': bulk,
+                          'single': [{'k': k, 'v': guarded(single_meta, k)} for k in distinct], 'flags': []})
             entries = []
-            with cont.get_objects_stream_and_meta(list(req), skip_if_missing=skip) as triplets:
-                for k, stream, meta in triplets:
-                    entries.append({'k': k, 'w': meta.type.value,
-                                    'v': 'MISSING' if stream is None else hashlib.sha1(stream.read()).hexdigest()[:12]})
+            try:
+                with cont.get_objects_stream_and_meta(list(req), skip_if_missing=skip) as triplets:
+                    for k, stream, meta in triplets:
+                        entries.append({'k': k, 'w': meta.type.value,
+                                        'v': 'MISSING' if stream is None else hashlib.sha1(stream.read()).hexdigest()[:12]})
+            except Exception as exc:  # noqa pylint: disable=broad-except
+                entries += raised(exc)
             lines.append({'call': 'streams', 'label': label, 'req': req, 'skip': skip, 'bulk': entries,
-                          'single': [{'k': k, 'v': single_content(k)} for k in distinct], 'flags': []})
-            got = cont.get_objects_content(list(req), skip_if_missing=skip)
-            lines.append({'call': 'content', 'label': label, 'req': req, 'skip': skip,
-                          'bulk': [{'k': k, 'v': 'MISSING' if v is None else hashlib.sha1(v).hexdigest()[:12]} for k, v in got.items()],
-                          'single': [{'k': k, 'v': single_content(k)} for k in distinct], 'flags': []})
+                          'single': [{'k': k, 'v': guarded(single_content, k)} for k in distinct], 'flags': []})
+            try:
+                got = cont.get_objects_content(list(req), skip_if_missing=skip)
+                bulk = [{'k': k, 'v': 'MISSING' if v is None else hashlib.sha1(v).hexdigest()[:12]} for k, v in got.items()]
+            except Exception as exc:  # noqa pylint: disable=broad-except
+                bulk = raised(exc)
+            lines.append({'call': 'content', 'label': label, 'req': req, 'skip': skip, 'bulk': bulk,
+                          'single': [{'k': k, 'v': guarded(single_content, k)} for k in distinct], 'flags': []})
     del by_key
     return lines
 
